@@ -443,6 +443,51 @@ def budget_scale(anchors, tier, report=None):
     return k
 
 
+def clone_probe(obj, snapshot, deep_equal=True, collect=False):
+    """Copies of an object of the library — `copy.copy`, `copy.deepcopy`, a pickle round trip — are made, looked at and
+    dropped again (garbage collected) next to the object under test.  `snapshot(o)` describes what `o` presents without
+    using it in a way that changes it.  Returns None or a description:
+      * making, reading and dropping the copies must leave the object exactly as it was,
+      * every copy presents what the object presents.
+    An object that cannot be copied or pickled at all (TypeError, RecursionError, pickling errors) is not judged."""
+    import copy
+    import gc
+    import pickle
+    before = snapshot(obj)
+    makers = [("copy.copy", lambda: copy.copy(obj)), ("copy.deepcopy", lambda: copy.deepcopy(obj)),
+              ("pickle round trip", lambda: pickle.loads(pickle.dumps(obj)))]
+    for name, make in makers:
+        try:
+            c = make()
+        except (TypeError, RecursionError, pickle.PicklingError, AttributeError, ValueError, OSError):
+            c = None
+        except Exception as e:  # noqa
+            return f"{name} of the object raised {err_name(e)}: {e}"
+        if c is not None and (deep_equal or name == "copy.copy"):
+            try:
+                cs = snapshot(c)
+            except Exception as e:  # noqa
+                return f"the {name} cannot be read: {err_name(e)}: {e}"
+            if cs != before:
+                return f"the {name} presents {str(cs)[:300]}, the object presents {str(before)[:300]}"
+        try:
+            now = snapshot(obj)
+        except Exception as e:  # noqa
+            return f"after a {name} was made the object cannot be read: {err_name(e)}: {e}"
+        if now != before:
+            return f"making a {name} changed the object: it presented {str(before)[:300]}, now {str(now)[:300]}"
+        del c
+        if collect and name == "copy.copy":
+            gc.collect(0)  # objects with reference cycles (and their finalisers) go only now
+        try:
+            now = snapshot(obj)
+        except Exception as e:  # noqa
+            return f"after a {name} was dropped the object cannot be read: {err_name(e)}: {e}"
+        if now != before:
+            return f"dropping a {name} changed the object: it presented {str(before)[:300]}, now {str(now)[:300]}"
+    return None
+
+
 class Report:
     """collects what a run did and writes evidence / replay / verdict lines"""
 
